@@ -410,3 +410,150 @@ Proof.
     injection H as <- _ _. apply client_rewrite_no_marker. }
   split; [exact Hm|]. intros. now apply detect_no_marker.
 Qed.
+
+(* ==================================================================================== *)
+(* C06_replay: the id table over the whole history of calls *)
+
+Lemma list_eqb_eq : forall a b, list_eqb a b = true <-> a = b.
+Proof.
+  induction a as [|x a IH]; intros [|y b]; cbn [list_eqb]; try (split; congruence).
+  rewrite andb_true_iff, N.eqb_eq, IH. split; [now intros [-> ->] | now intros [= -> ->]].
+Qed.
+
+Lemma map_find_in : forall m id, In id (map fst m) -> map_find m id <> None.
+Proof.
+  induction m as [|[k v] m IH]; intros id H; [destruct H|]. cbn [map_find].
+  destruct (list_eqb k id) eqn:E; [discriminate|]. apply IH. destruct H as [H|H]; [|assumption].
+  cbn [fst] in H. subst k. now rewrite (proj2 (list_eqb_eq id id) eq_refl) in E.
+Qed.
+
+Lemma prune_consts_ok : Consts.det_prune_limit = 100 /\ Consts.det_prune_keep = 50 /\ replay_window = 52%nat.
+Proof. repeat split. Qed.
+
+(* the table holds exactly its [length] newest accepted ids, numbered 0..length-1 in order
+   of acceptance, and never fewer than the newest 52 (or all of them) *)
+Definition table_inv (m : idmap) (acc : list (list N)) : Prop :=
+  map snd m = map N.of_nat (seq 0 (length m)) /\
+  rev (map fst m) = firstn (length m) acc /\
+  (length m <= 101)%nat /\
+  (length acc <= length m \/ 52 <= length m)%nat.
+
+Lemma filter_ge_seq : forall (m : idmap) a, map snd m = map N.of_nat (seq a (length m)) ->
+  filter (fun kv => 50 <=? snd kv) m = skipn (50 - a) m.
+Proof.
+  induction m as [|[k v] m IH]; intros a H; [now rewrite skipn_nil|].
+  cbn [map length seq snd] in H. injection H as -> H. cbn [filter snd].
+  destruct (N.leb_spec 50 (N.of_nat a)) as [Hle|Hlt].
+  - replace (50 - a)%nat with O by lia. cbn [skipn]. f_equal. rewrite (IH _ H). now replace (50 - S a)%nat with O by lia.
+  - rewrite (IH _ H). replace (50 - a)%nat with (S (50 - S a)) by lia. reflexivity.
+Qed.
+
+Lemma prune_small : forall m, (length m <= 100)%nat -> prune m = m.
+Proof.
+  intros m H. unfold prune, mlen. destruct prune_consts_ok as (-> & _).
+  destruct (N.ltb_spec 100 (N.of_nat (length m))); [lia | reflexivity].
+Qed.
+
+Lemma prune_full : forall m, length m = 101%nat -> map snd m = map N.of_nat (seq 0 (length m)) ->
+  prune m = map (fun kv : list N * N => (fst kv, snd kv - 50)) (skipn 50 m).
+Proof.
+  intros m L Hv. unfold prune, mlen. destruct prune_consts_ok as (-> & -> & _).
+  destruct (N.ltb_spec 100 (N.of_nat (length m))); [|lia].
+  now rewrite (filter_ge_seq m O) by exact Hv.
+Qed.
+
+Lemma table_inv_insert : forall m acc id, table_inv m acc ->
+  table_inv (prune m ++ [(id, mlen (prune m))]) (id :: acc).
+Proof.
+  intros m acc id (Hv & Hk & Hlen & Hwin).
+  destruct (Nat.eq_dec (length m) 101) as [L|L].
+  - rewrite (prune_full m L Hv).
+    set (m' := map (fun kv : list N * N => (fst kv, snd kv - 50)) (skipn 50 m)).
+    assert (Lm' : length m' = 51%nat) by (unfold m'; rewrite map_length, skipn_length; lia).
+    assert (Hfst : map fst m' = skipn 50 (map fst m)) by (unfold m'; rewrite map_map; cbn [fst]; now rewrite skipn_map).
+    assert (Hsnd : map snd m' = map N.of_nat (seq 0 51)).
+    { unfold m'. rewrite map_map. cbn [snd]. rewrite <- (map_map snd (fun v => v - 50)), <- skipn_map, Hv, L. reflexivity. }
+    unfold table_inv, mlen. rewrite !map_app, app_length, Lm', Hsnd, Hfst. cbn [map fst snd length Nat.add].
+    split; [reflexivity | split; [| lia]].
+    rewrite rev_app_distr. cbn [rev app firstn]. f_equal.
+    pose proof (firstn_rev 51 (map fst m)) as Hr. rewrite map_length, L in Hr. cbn [Nat.sub] in Hr.
+    rewrite <- Hr, Hk, L, firstn_firstn. reflexivity.
+  - rewrite (prune_small m) by lia.
+    unfold table_inv, mlen. rewrite !map_app, app_length, rev_app_distr. cbn [map fst snd length rev app].
+    replace (length m + 1)%nat with (S (length m)) by lia. rewrite seq_S, map_app, Hv. cbn [map Nat.add firstn].
+    split; [reflexivity | split; [now rewrite Hk | cbn [length]; lia]].
+Qed.
+
+Lemma in_firstn_le : forall {A} (x : A) n k l, (n <= k)%nat -> In x (firstn n l) -> In x (firstn k l).
+Proof.
+  intros A x; induction n as [|n IH]; intros k l Hle Hin; [destruct Hin|].
+  destruct l as [|a l]; [destruct Hin|]. destruct k as [|k]; [lia|]. cbn [firstn] in *.
+  destruct Hin as [->|Hin]; [now left | right; apply (IH k); [lia | assumption]].
+Qed.
+
+Lemma table_inv_remembers : forall m acc id, table_inv m acc -> In id (firstn 52 acc) -> map_find m id <> None.
+Proof.
+  intros m acc id (_ & Hk & _ & Hwin) Hin. apply map_find_in. apply in_rev. rewrite Hk.
+  destruct Hwin as [Hw|Hw].
+  - rewrite firstn_all2 by exact Hw. rewrite <- (firstn_all acc).
+    destruct (Nat.le_ge_cases 52 (length acc)); [eapply in_firstn_le; eassumption|].
+    rewrite firstn_all2 in Hin by assumption. now rewrite firstn_all.
+  - eapply in_firstn_le; eassumption.
+Qed.
+
+Lemma detect_table : forall w d tunnel buf o t d', detect w d tunnel buf = (o, t, d') ->
+  (t = None /\ d' = d) \/
+  (exists tr, t = Some tr /\ is_repeated w (d_map d) (t_id tr) = (false, d_map d')).
+Proof.
+  intros w d tunnel buf o t d' H. destruct t as [tr|]; [right|left; split; [reflexivity|eapply silent; eassumption]].
+  exists tr. split; [reflexivity|]. unfold detect in H.
+  destruct (nlen buf <? Consts.det_min_len); [discriminate|].
+  destruct (last_index_of marker buf); [|discriminate].
+  set (ob := if d_relay d && d_tmux d then rewrite_trigger buf else buf) in *.
+  destruct (last_index_of marker ob) as [idx|]; [|discriminate].
+  destruct (find_trzsz (skipn idx ob)) as [m|]; [|discriminate].
+  destruct (negb (is_none (find_tmux ob)) && _); [discriminate|].
+  destruct ((Consts.det_finished_offset <? nlen (skipn idx ob)) && _); [discriminate|].
+  destruct (parse_version (m_ver m)); [|discriminate].
+  destruct (is_repeated w (d_map d) _) as [rep mp] eqn:E. destruct rep; [discriminate|].
+  injection H as _ <- <-. cbn [t_id d_map set_map]. exact E.
+Qed.
+
+Lemma hist_step_inv : forall w d acc c, table_inv (d_map d) acc ->
+  table_inv (d_map (fst (hist_step w (d, acc) c))) (snd (hist_step w (d, acc) c)).
+Proof.
+  intros w d acc [tn buf] Hinv. unfold hist_step. cbn [fst snd].
+  destruct (detect w d tn buf) as [[o t] d'] eqn:E. cbn [fst snd].
+  destruct (detect_table _ _ _ _ _ _ _ E) as [[-> ->]|(tr & -> & Hrep)]; [exact Hinv|].
+  unfold is_repeated in Hrep. destruct (dedup_eligible w (t_id tr)).
+  - destruct (map_find (d_map d) (t_id tr)); [discriminate|]. injection Hrep as <-. now apply table_inv_insert.
+  - now injection Hrep as <-.
+Qed.
+
+Lemma hist_run_inv : forall w calls d acc, table_inv (d_map d) acc ->
+  forall d' acc', fold_left (hist_step w) calls (d, acc) = (d', acc') -> table_inv (d_map d') acc'.
+Proof.
+  intros w; induction calls as [|c calls IH]; intros d acc Hinv d' acc' H; cbn [fold_left] in H.
+  - now injection H as <- <-.
+  - pose proof (hist_step_inv w d acc c Hinv) as Hs. destruct (hist_step w (d, acc) c) as [d1 acc1].
+    cbn [fst snd] in Hs. eapply IH; eassumption.
+Qed.
+
+Lemma table_inv_new : forall relay tmux, table_inv (d_map (new_det relay tmux)) [].
+Proof. intros. cbn. repeat split; cbn; lia. Qed.
+
+(* after ANY sequence of calls on a fresh detector: a trigger whose dedup-eligible id is
+   among the 52 most recently accepted eligible ids is never accepted again *)
+Lemma replay : forall w relay tmux calls d acc,
+  hist_run w (new_det relay tmux) calls = (d, acc) ->
+  forall tunnel buf out tr d', detect w d tunnel buf = (out, Some tr, d') ->
+  dedup_eligible w (t_id tr) = true -> ~ In (t_id tr) (firstn replay_window acc).
+Proof.
+  intros w relay tmux calls d acc Hrun tunnel buf out tr d' Hdet Hel Hin.
+  assert (Hinv : table_inv (d_map d) acc) by (eapply hist_run_inv; [apply table_inv_new | exact Hrun]).
+  destruct (detect_table _ _ _ _ _ _ _ Hdet) as [[Hn _]|(tr' & [= <-] & Hrep)]; [discriminate|].
+  unfold is_repeated in Hrep. rewrite Hel in Hrep.
+  destruct (map_find (d_map d) (t_id tr)) eqn:E; [discriminate|].
+  destruct prune_consts_ok as (_ & _ & Hw). rewrite Hw in Hin.
+  now apply (table_inv_remembers _ _ _ Hinv Hin).
+Qed.
